@@ -172,41 +172,37 @@ Proof. intros K Kf Kc sh f. split; [exact (reg_reductions K sh f) | exact (reg_m
 Print Assumptions C17_reductions.
 
 (* ================= 4. elastic constants ================================================================ *)
-Theorem C17_lame_table_partial :
+From Coq Require Import String.
+(* every pair of elastic constants the table accepts (all pairs of distinct keywords; second_parameter and
+   shear_modulus are the same quantity and mutually exclusive) returns (lambda, mu) that satisfy the defining
+   relations of the constants it was given *)
+Theorem C17_lame_table :
   forall (K : fld), is_field K -> char0 K ->
+  gen_lame_table = [("first_second", "Ok"); ("first_shear", "Ok"); ("first_poisson", "Ok"); ("first_young", "Ok");
+                    ("second_shear", "ValueError"); ("second_poisson", "Ok"); ("second_young", "Ok");
+                    ("shear_poisson", "Ok"); ("shear_young", "Ok"); ("poisson_young", "Ok");
+                    ("material_steel", "ValueError"); ("material_none", "ValueError")]%string /\
   (forall lam mu : K, gen_lame_first_second lam mu = (lam, mu) /\ gen_lame_first_shear lam mu = (lam, mu)) /\
   (forall lam nu : K, lam <> 0 -> nu <> 0 ->
      let '(l, m) := gen_lame_first_poisson lam nu in l = lam /\ poisson_of l m = nu) /\
+  (forall r lam ym : K, r * r = gen_lame_first_young_radicand lam ym -> lam + snd (gen_lame_first_young r lam ym) <> 0 ->
+     fst (gen_lame_first_young r lam ym) = lam /\
+     youngs_of (fst (gen_lame_first_young r lam ym)) (snd (gen_lame_first_young r lam ym)) = ym) /\
   (forall g nu : K, g <> 0 -> 1 - (1 + 1) * nu <> 0 ->
      (let '(l, m) := gen_lame_shear_poisson g nu in m = g /\ poisson_of l m = nu) /\
      gen_lame_second_poisson g nu = gen_lame_shear_poisson g nu) /\
   (forall g ym : K, g <> 0 -> (1 + 1 + 1) * g - ym <> 0 ->
      (let '(l, m) := gen_lame_shear_young g ym in m = g /\ youngs_of l m = ym) /\
-     gen_lame_second_young g ym = gen_lame_shear_young g ym).
+     gen_lame_second_young g ym = gen_lame_shear_young g ym) /\
+  (forall nu ym : K, ym <> 0 -> 1 + nu <> 0 -> 1 - (1 + 1) * nu <> 0 ->
+     youngs_of (fst (gen_lame_poisson_young nu ym)) (snd (gen_lame_poisson_young nu ym)) = ym /\
+     poisson_of (fst (gen_lame_poisson_young nu ym)) (snd (gen_lame_poisson_young nu ym)) = nu).
 Proof.
   intros K Kf Kc.
-  exact (conj (lame_direct K) (conj (lame_first_poisson K Kf Kc) (conj (lame_shear_poisson K Kf Kc) (lame_shear_young K Kf)))).
+  exact (conj lame_table_ok (conj (lame_direct K) (conj (lame_first_poisson K Kf Kc) (conj (lame_first_young K Kf Kc)
+        (conj (lame_shear_poisson K Kf Kc) (conj (lame_shear_young K Kf) (lame_poisson_young K Kf Kc))))))).
 Qed.
-Print Assumptions C17_lame_table_partial.
-(* PARTIAL: what is missing from "any valid pair of elastic constants" are the two pairs below. *)
-
-(* (lambda, E): with r^2 the radicand the source computes, the relation holds for mu = (E - 3 lambda + r)/4 ... *)
-Theorem C17_lame_first_young_closed_form :
-  forall (K : fld), is_field K -> char0 K -> forall r lam ym : K,
-  r * r = gen_lame_first_young_radicand lam ym -> lam + snd (lame_first_young_spec K r lam ym) <> 0 ->
-  youngs_of (fst (lame_first_young_spec K r lam ym)) (snd (lame_first_young_spec K r lam ym)) = ym.
-Proof. exact lame_first_young_spec_ok. Qed.
-Print Assumptions C17_lame_first_young_closed_form.
-
-(* ... but the source returns E - 3 lambda + r/4.  (The pair (nu, E) cannot be executed at all: TypeError;
-   it has no generated definition and is reported from the implementation side.) *)
-Theorem C17_lame_first_young_refuted :
-  exists r lam ym : QcF,
-    qeqb (r * r)%F (gen_lame_first_young_radicand lam ym) = true /\
-    qeqb (youngs_of (fst (lame_first_young_spec QcF r lam ym)) (snd (lame_first_young_spec QcF r lam ym))) ym = true /\
-    qeqb (youngs_of (fst (gen_lame_first_young r lam ym)) (snd (gen_lame_first_young r lam ym))) ym = false.
-Proof. exact lame_first_young_refuted. Qed.
-Print Assumptions C17_lame_first_young_refuted.
+Print Assumptions C17_lame_table.
 
 Theorem C17_lame_rubber :
   qeqb (snd (gen_lame_rubber (K:=QcF))) (q 3 5000) = true /\
@@ -226,14 +222,19 @@ Theorem C17_inverse_consistency_units :
 Proof. intros K Kf Kc. split; [exact (ic_zero K Kf) | exact (denormalize_ok K Kf Kc)]. Qed.
 Print Assumptions C17_inverse_consistency_units.
 
-(* the default of denormalize_flow is align_corners=True, which is not the conversion of a grid with
-   align_corners=False (inverse_consistency_loss calls it without the grid's flag: reported from the
-   implementation side as C17:inverse_consistency_loss:voxel-units-align-corners-false) *)
-Theorem C17_denormalize_default_refuted :
-  gen_denormalize_default_is_ac = true /\
-  exists e : list QcF, vclose 0 (gen_denormalize_ac e) (ic_convert_spec UVoxel false [5; 7; 9]%Z [] e) = false.
-Proof. exact denormalize_default_refuted. Qed.
-Print Assumptions C17_denormalize_default_refuted.
+(* inverse_consistency_loss reports the Euclidean norm of the cube-unit error converted with the grid's own
+   align_corners flag, in every unit (traced on a stand-in grid of size (5, 7, 9) with symbolic spacing) *)
+Theorem C17_inverse_consistency_uses_grid_flag :
+  forall (K : fld), is_field K -> char0 K -> forall (s0 s1 s2 e0 e1 e2 : K),
+  let n := [5; 7; 9]%Z in let s := [s0; s1; s2] in let e := [e0; e1; e2] in
+  gen_ic_sq_cube_ac s0 s1 s2 e0 e1 e2 = sq_sum K (ic_convert_spec UCube true n s e) /\
+  gen_ic_sq_voxel_ac s0 s1 s2 e0 e1 e2 = sq_sum K (ic_convert_spec UVoxel true n s e) /\
+  gen_ic_sq_world_ac s0 s1 s2 e0 e1 e2 = sq_sum K (ic_convert_spec UWorld true n s e) /\
+  gen_ic_sq_cube_nac s0 s1 s2 e0 e1 e2 = sq_sum K (ic_convert_spec UCube false n s e) /\
+  gen_ic_sq_voxel_nac s0 s1 s2 e0 e1 e2 = sq_sum K (ic_convert_spec UVoxel false n s e) /\
+  gen_ic_sq_world_nac s0 s1 s2 e0 e1 e2 = sq_sum K (ic_convert_spec UWorld false n s e).
+Proof. exact ic_units_ok. Qed.
+Print Assumptions C17_inverse_consistency_uses_grid_flag.
 
 (* ================= 6. the loss formulas are the source's (translator tie) ============================== *)
 Theorem C17_gen_coefficients_2d :
@@ -282,12 +283,12 @@ Example C17_nonvacuous :
   let sh := [5; 6]%Z in
   let sp : list QcF := [q 1 2; q 2 1] in
   let A : list (idx -> QcF) := [aff (K:=QcF) (q 1 1) [q 2 1; q 3 1]; aff (K:=QcF) (q 0 1) [q 1 2; q 1 1]] in
-  let U : list (idx -> QcF) := [fun i => of_Z (K:=QcF) (get 0 i * get 0 i + get 1 i); fun i => of_Z (K:=QcF) (get 0 i * get 1 i)] in
+  let U : list (idx -> QcF) := [fun i => of_Z (K:=QcF) (RegStencil.get 0 i * RegStencil.get 0 i + RegStencil.get 1 i); fun i => of_Z (K:=QcF) (RegStencil.get 0 i * RegStencil.get 1 i)] in
   (* a non-affine field has non-zero bending energy; the affine one has a non-zero diffusion value *)
   qeqb (bending_pt MFcb sh sp U [2; 3]%Z) (q 0 1) = false /\
   qeqb (bending_pt MSobel sh sp A [2; 3]%Z) (q 0 1) = true /\
   qeqb (diffusion_pt MFcb sh sp A [0; 5]%Z) (q 0 1) = false /\
-  length (box sh) = 30%nat /\
+  List.length (box sh) = 30%nat /\
   (* lame: a valid (G, nu) pair *)
   qeqb (poisson_of (fst (gen_lame_shear_poisson (K:=QcF) (q 3 1) (q 1 4))) (snd (gen_lame_shear_poisson (K:=QcF) (q 3 1) (q 1 4)))) (q 1 4) = true.
 Proof. vm_compute. repeat split. Qed.
